@@ -33,6 +33,15 @@ Grid(s) ==
     [] s = "bloom.by_accuracy" -> {<<<<n>>, c>> : n \in {L(0), L(1), L(1000), <<0, 1, 0, 0>>}, c \in FloatClasses}
     [] s \in {"varopt.k", "varopt_union.max_k", "ebpps.k"} -> {<<<<k>>, "none">> : k \in Wide32}
     [] s = "density.k" -> {<<<<L(k), L(d)>>, "none">> : k \in U16, d \in {0, 1, 3}}
+    [] s \in {"hll.bound_num_std_dev", "hll_union.bound_num_std_dev", "cpc.bound_kappa"} -> {<<<<L(k), L(f), L(m)>>, "none">> : k \in Bytes, f \in {0, 1}, m \in {0, 1, 2}}
+    [] s = "cpc_union.update_seed" -> {<<<<L(x), L(y)>>, "none">> : x \in {0, 1}, y \in {0, 1}}
+    [] s = "tdigest.split_points" -> {<<<<L(k), L(f)>>, "none">> : k \in 0..7, f \in {0, 1}}
+    [] s = "bloom.init_by_size" -> {<<<<b, L(h), L(n)>>, "none">> : b \in {L(0), L(1), L(64), L(65), L(1000), BloomMaxBits, <<0, 3, 65535, 65273>>}, h \in {0, 3}, n \in {0, 31, 32, 39, 40, 47, 48, 152, 159, 160, 1000}}
+    [] s = "bloom.init_by_accuracy" -> {<<<<n, L(len)>>, c>> : n \in {L(0), L(100), <<0, 256, 0, 0>>}, len \in {8, 39, 40, 1048576}, c \in FloatClasses}
+    [] s = "bloom.from_memory" -> {<<<<L(k), L(f)>>, "none">> : k \in 0..2, f \in 0..2}
+    [] s = "bloom.serialized_size" -> {<<<<b>>, "none">> : b \in Wide64}
+    [] s = "bloom.suggest_hashes_nm" -> {<<<<n, b>>, "none">> : n \in {L(0), L(1), L(1000)}, b \in Wide64}
+    [] s = "theta_intersection.operand" -> {<<<<L(k), L(p), L(o), L(f)>>, "none">> : k \in 0..2, p \in 1..2, o \in 0..1, f \in 0..1}
 
 \* ---- the code's validation, per site: [out |-> outcome, echo |-> value the getter reports (<<>> if none)]
 Ok(e) == [out |-> "ok", echo |-> e]
@@ -80,6 +89,30 @@ Impl(s, x, c) ==
     [] s = "varopt_union.max_k" -> IF v = 0 \/ v > 2147483646 THEN Refuse ELSE Ok(<<>>)
     [] s = "tdigest.k" -> IF v < 10 THEN Refuse ELSE Ok(x[1])
     [] s = "density.k" -> IF v < 2 THEN Refuse ELSE Ok(x[1])
+    [] s \in {"hll.bound_num_std_dev", "hll_union.bound_num_std_dev", "cpc.bound_kappa"} -> IF v < 1 \/ v > 3 THEN Refuse ELSE Ok(<<>>)
+    [] s = "cpc_union.update_seed" -> IF v = 1 THEN Ok(<<>>) ELSE Refuse
+    [] s = "tdigest.split_points" -> IF v \in {0, 7} THEN Ok(<<>>) ELSE Refuse       \* isnan first, then !(values[i] < values[i + 1])
+    [] s = "bloom.init_by_size" ->
+         \* validate_size_inputs, then the constructor: the block must hold 8 * (4 + ceil(bits / 64)) bytes
+         IF IsZero(x[1]) \/ ~LimbLE(x[1], BloomMaxBits) \/ IsZero(x[2]) THEN Refuse
+         ELSE IF ~LimbLE(x[1], L(100000)) THEN (IF LimbLE(x[3], L(100000)) THEN Refuse ELSE Ok(x[2]))
+         ELSE IF Val(x[3]) < 8 * (4 + (Val(x[1]) + 63) \div 64) THEN Refuse ELSE Ok(x[2])
+    [] s = "bloom.init_by_accuracy" ->
+         \* validate_accuracy_inputs; probability 1 gives 0 hashes (refused by the constructor); 2^40 items need more than the largest filter;
+         \* 100 items at a probability in (0, 1) need more than 40 bytes and less than a megabyte
+         IF IsZero(x[1]) \/ ~Probability(c) \/ c = "one" \/ Val(x[1]) > 1000 THEN Refuse
+         ELSE IF Val(x[2]) < 1048576 THEN Refuse ELSE Ok(<<>>)
+    [] s = "bloom.from_memory" -> IF v = 0 THEN Ok(<<>>) ELSE IF v = 1 THEN Refuse ELSE [out |-> "other", echo |-> <<>>]
+    [] s = "bloom.serialized_size" -> IF IsZero(x[1]) THEN Refuse ELSE Ok(<<>>)
+    [] s = "bloom.suggest_hashes_nm" -> IF IsZero(x[1]) \/ IsZero(x[2]) \/ ~LimbLE(x[2], BloomMaxBits) THEN Refuse ELSE Ok(<<>>)
+    [] s = "theta_intersection.operand" ->
+         \* first operand: every entry is looked up before it is inserted (duplicate), then the number inserted is compared with the count
+         \* (the iterator of a deserialized sketch skips zero hashes, the wrapped one does not); later operands: only an unordered
+         \* deserialized operand with a skipped entry is noticed ("fewer keys than expected")
+         LET kind == v  pos == Val(x[2])  ord == Val(x[3])  form == Val(x[4]) IN
+         IF kind = 1 /\ pos = 1 THEN Refuse
+         ELSE IF kind = 2 /\ form = 0 /\ (pos = 1 \/ ord = 0) THEN Refuse
+         ELSE Ok(<<>>)
 
 Init == /\ site \in (IF Only = "" THEN Sites ELSE {Only})
         /\ \E g \in Grid(site) : a = g[1] /\ cls = g[2]
